@@ -397,6 +397,29 @@ pub fn gen_case_growth(rng: &mut Rng, force_rc: Option<bool>) -> Case {
 			_ => steps.push(Step::Reopen),
 		}
 	}
+	// overwrite wave: while the entries of most keys still live in the old index (no reindex step in
+	// between), every key is overwritten with a value of another length (its value moves to another
+	// address, and a new entry goes into the page of the current index - until that page is full too)
+	if rng.chance(1, 3) {
+		let c = 0usize;
+		let mut k = 0usize;
+		while k < nkeys {
+			let n = std::cmp::min(rng.range(6, 20) as usize, nkeys - k);
+			let ops: Vec<(u8, u8, usize, u64)> = (0..n)
+				.map(|i| {
+					let vtok = if cols[c].preimage { fixed[c][k + i] } else { (rng.range(1, 1 << 20) << 32) | rng.range(100, 400) };
+					(c as u8, 0u8, k + i, vtok)
+				})
+				.collect();
+			k += n;
+			steps.push(Step::Commit(ops));
+			steps.push(Step::Process);
+			if rng.chance(1, 4) {
+				steps.push(Step::Flush);
+				steps.push(Step::EnactAll);
+			}
+		}
+	}
 	// drain, so that a growth that was started is also finished and its old index dropped
 	for _ in 0..3 {
 		steps.extend([Step::Process, Step::Process, Step::Flush, Step::EnactAll, Step::Reindex, Step::Flush, Step::EnactAll, Step::Clean]);
